@@ -43,6 +43,8 @@ func C11(ctx *core.Ctx, r *core.Report) {
 	c11DeleteEachTakesEffect(ctx, r)
 	c11IfFeatureOperators(ctx, r)
 	c11FeaturesConjunctive(ctx, r)
+	c11EachIfFeatureKept(ctx, r)
+	c11DeviationCheckByCapability(ctx, r)
 	c11DeviateFieldsFilled(ctx, r)
 	c11DeleteRequiresMatch(ctx, r)
 	r.Count("instances:memo-key-complete(tables found)", memoKeyComplete(ctx, r, scopeFuncs(ctx, "meta", "feature_set.go", "core.go", "resolver.go")))
